@@ -44,6 +44,11 @@ def CmdOK (qm m0 : Nat) (c : Cmd) : Prop := ∃ m ev, c = .trigger m ev ∧ (qm 
 
 def ScriptOK (qm m0 : Nat) (sc : Script) : Prop := ∀ c k, ∀ cmd ∈ (sc c k).cmds, CmdOK qm m0 cmd
 
+/-- ... and awaited `may_<event>` polls (on any model: a poll touches no queue) -/
+def CmdOKP (qm m0 : Nat) (c : Cmd) : Prop := CmdOK qm m0 c ∨ ∃ m ev, c = .may m ev
+
+def ScriptOKP (qm m0 : Nat) (sc : Script) : Prop := ∀ c k, ∀ cmd ∈ (sc c k).cmds, CmdOKP qm m0 cmd
+
 /-! ### the licensed difference and the observation map -/
 
 /-- the (deterministic) condition does not meet its target -/
